@@ -42,10 +42,10 @@ VALUES: dict[str, list[str]] = {
     'playready__version': ['1.0', '2.0', '3.0', '4.0'],
     'abr': ['0', '1'], 'base': ['0', '1'], 'mup': ['-1', '4', '30'], 'timeline': ['0', '1'], 'patch': ['1'], 'acodec': ['mp4a', 'ec-3'],
     'tcodec': ['stpp'], 'time': ['xsd', 'iso', 'direct', 'head', 'http-ntp'], 'drift': ['10'], 'update': ['3'],
-    'ping__count': ['0', '5'], 'ping__duration': ['100'], 'ping__inband': ['0', '1'], 'ping__interval': ['500'], 'ping__start': ['250'],
+    'ping__count': ['0', '5'], 'ping__duration': ['100', '0'], 'ping__inband': ['0', '1'], 'ping__interval': ['500', '1'], 'ping__start': ['250', '0'],
     'ping__timescale': ['100', '90000'], 'ping__value': ['0', 'a&b', 'x=y', 'p q', 'é', ''], 'ping__version': ['0', '1'],
-    'scte35__count': ['4'], 'scte35__duration': ['300'], 'scte35__inband': ['0', '1'], 'scte35__interval': ['800'], 'scte35__start': ['100'],
-    'scte35__timescale': ['100'], 'scte35__value': ['', 'v&w'], 'scte35__version': ['0', '1'], 'scte35__program_id': ['1620', '7'],
+    'scte35__count': ['4', '0'], 'scte35__duration': ['300', '0'], 'scte35__inband': ['0', '1'], 'scte35__interval': ['800'], 'scte35__start': ['100', '0'],
+    'scte35__timescale': ['100'], 'scte35__value': ['', 'v&w'], 'scte35__version': ['0', '1'], 'scte35__program_id': ['1620', '7', '0'],
 }
 
 
@@ -71,6 +71,15 @@ def canon(v: Any) -> Any:
     if hasattr(v, 'items') and hasattr(v, '_fields'):
         return 'o:' + json.dumps({k: canon(x) for k, x in sorted(v.items())})
     return f'{type(v).__name__}:{v}'
+
+
+def given_meaning(raw: str, parsed: Any) -> str:
+    """the independent reading of a piece of option text: a decimal integer literal given to an integer-valued option means
+    that integer; everything else has no reading of its own ('')"""
+    import re
+    if isinstance(parsed, int) and not isinstance(parsed, bool) and re.fullmatch(r'-?[0-9]+', raw):
+        return f'int:{int(raw, 10)}'
+    return ''
 
 
 def main(tier_: str) -> int:
@@ -121,12 +130,12 @@ def main(tier_: str) -> int:
             # ---- codec identity -----------------------------------------------------------------------
             for n in names:
                 for raw in VALUES.get(n, []):
-                    ln = {'ev': 'codec', 'name': n, 'raw': raw, 'v1': '', 'v2': '', 'ok': 0}
+                    ln = {'ev': 'codec', 'name': n, 'raw': raw, 'v1': '', 'v2': '', 'ok': 0, 'given': ''}
                     try:
                         v1 = opts[n].from_string(raw)
                         s1 = opts[n].to_string(v1)
                         v2 = opts[n].from_string(s1 if isinstance(s1, str) else str(s1))
-                        ln.update({'v1': canon(v1), 'v2': canon(v2), 'ok': 1, 'text': str(s1)[:80]})
+                        ln.update({'v1': canon(v1), 'v2': canon(v2), 'ok': 1, 'text': str(s1)[:80], 'given': given_meaning(raw, v1)})
                     except Exception as err:      # noqa: BLE001
                         ln['err'] = f'{type(err).__name__}: {err}'[:120]
                     lines.append(ln)
@@ -197,7 +206,15 @@ def main(tier_: str) -> int:
                         # error injection positions are rewritten (times -> numbers): compared by C16
                         skip = {'verr', 'aerr', 'terr', 'vcorrupt'}
                         cmp_names = [n for n in names if n not in skip]
-                        lines.append({'ev': 'fwd', 'm': m, 'which': which, 'url': url, 'media_url': murl, 'names': cmp_names,
+                        given = {}
+                        for n, raw in vec.items():
+                            if n in cmp_names and n not in ('start', 'depth'):
+                                try:
+                                    given[n] = given_meaning(raw, opts[n].from_string(raw))
+                                except Exception:      # noqa: BLE001
+                                    given[n] = ''
+                        given = {n: g for n, g in given.items() if g} or {'-': ''}
+                        lines.append({'ev': 'fwd', 'm': m, 'which': which, 'url': url, 'media_url': murl, 'names': cmp_names, 'given': given,
                                       'usage': {n: usage[n] for n in names}, 'man': {n: man[n] for n in cmp_names},
                                       'med': {n: med[n] for n in cmp_names}, 'url_names': url_names, 'vec': vec})
         for i, ln in enumerate(lines):
@@ -213,7 +230,8 @@ def main(tier_: str) -> int:
                 bad = sorted(v['detail']) if isinstance(v['detail'], list) else v['detail']
                 for n in (bad if isinstance(bad, list) else [bad]):
                     case = {'option': n, 'm': lo['m'], 'which': lo['which'], 'url': lo['url'], 'media_url': lo['media_url'],
-                            'manifest_value': lo['man'].get(n), 'media_value': lo['med'].get(n), 'raw': lo['vec'].get(n)}
+                            'manifest_value': lo['man'].get(n), 'media_value': lo['med'].get(n), 'raw': lo['vec'].get(n),
+                            'given': lo['given'].get(n)}
                     key = f"{v['clause']}|{n}|{lo['vec'].get(n)}"
                     if key in seen:
                         continue
